@@ -375,6 +375,10 @@ class Histogram1D(ObjectWithBinning, HistogramBase):
         """
         if isinstance(weight, np.integer):
             weight = int(weight)  # weight**2 must not wrap around in a narrow type
+        elif isinstance(weight, np.floating) and weight.dtype.itemsize < 8:
+            weight = float(weight)  # (nor be accumulated in half / single precision)
+        if isinstance(value, np.generic):
+            value = value.item()  # value**2 of an np.int8 would wrap around as well
         self._coerce_dtype(type(weight))
         if self._binning.is_adaptive():
             bin_map = self._binning.force_bin_existence(value)
